@@ -24,7 +24,7 @@ def rule_pairing(ctx, rid="R2.2"):
     calls = calls_of(prog)
     push, pop = push_pop_funcs(prog)
     r = ctx.rule(rid, "every push_scope is undone by exactly one pop_scope on every exit "
-                      "(normal, return, exception, generator close)", floor=4)
+                      "(normal, return, exception, generator close)", floor=2)
     users = []
     for f in prog.funcs.values():
         if f is push or f is pop:
@@ -140,6 +140,18 @@ def rule_join_current_scope(ctx, rid="R2.4"):
     r = ctx.rule(rid, "references and sub-scopes are joined against the current top of the scope stack", floor=2)
     resolve = find_method(prog, "validators.RefResolver", "resolve")
     push = find_method(prog, "validators.RefResolver", "push_scope")
+    from .ressem import retrieval_eval
+    if "_ressem" not in ctx.extra:
+        ctx.extra["_ressem"] = retrieval_eval(prog) or False
+    sem = ctx.extra["_ressem"]
+    if sem and "raises" not in sem and "join" in sem:
+        # decided by resolving the same relative reference under two scopes inside the definitional interpreter
+        if sem["join"] is None:
+            r.ok(site(resolve), "resolve(ref) = (urljoin(scope in force, ref), what that URL designates), before and after a push_scope")
+            r.ok(site(push), "push_scope joins the sub-scope to the scope in force; pop_scope restores the stack")
+        else:
+            r.fail("%s|return:join" % resolve.qual, site(resolve), sem["join"])
+        return r
     for f, pname_idx, what in ((resolve, 1, "reference"), (push, 1, "scope")):
         joins = _join_calls(calls, f)
         if len(joins) != 1:
